@@ -111,13 +111,13 @@ def record_pure(tid: str, tt: list[list[int]], seed: int, kinds: list[str], per_
     def emit(e, fn):
         import signal
         old = signal.signal(signal.SIGALRM, _alarm)
-        signal.setitimer(signal.ITIMER_REAL, 20.0)       # watchdog: a pure call that does not return is reported, not waited for
+        signal.setitimer(signal.ITIMER_REAL, 45.0)       # watchdog: a pure call that does not return is reported, not waited for
         try:
             fn(e)
         except _Hang:
             e["raised"] = True
             e["hang"] = True
-            e["exc"] = "Hang: the call did not return within 20 s"
+            e["exc"] = "Hang: the call did not return within 45 s"
         except Exception as ex:  # noqa: BLE001
             e["raised"] = True
             e["exc"] = type(ex).__name__ + ": " + str(ex)[:100]
